@@ -12,7 +12,7 @@ EXPLANATION = (
     "name through `?`, a checked TryInto to the sink's declared width, Duration::from_secs or a boolean Not only - no `as` cast, no arithmetic; local_pubkey "
     "is getinfo.id; (R) every option read was registered with Builder::option; (O) ConfiguredPlugin::start (the init reply) is reachable only when "
     "policy delta > safety delta and is dominated by every conversion; (C) retry_for = try_into(timeout secs) saturating at u16::MAX and is forwarded; "
-    "(D) the policy aggregate built in main is the one stored in HtlcManagerParams.routing_policy. CLN's own option parsing is not decided."
+    "(D) the policy aggregate built in main is the one stored in HtlcManagerParams.routing_policy; (J) the framework stores the init message's option values verbatim (as_i64 for numbers, the JSON payload itself for booleans and strings; defaults only for absent options). CLN's own option parsing is not decided."
 )
 ASSUMPTIONS = ["cln_plugin's option() returns the value the node sent (or the default)", "TryInto between integer types fails exactly when the value does not fit"]
 
@@ -63,6 +63,36 @@ def j_init_values_verbatim(F, X, rep, rid):
                     rep.ob(rid, ok, F.root_of(b), "integer option value is the JSON number's as_i64()", where=loc(s["sp"]), how=show(e)[:80],
                            detail="" if ok else "an integer option is stored as %s: a configured value that does not convert (negative, large) is not refused - the option's default is used instead" % show(e)[:100])
     rep.anchor(rid, "conversion of the init message's numbers into option values", n, 1)
+    # booleans and strings likewise: the stored value is the JSON value's payload itself
+    nb = 0
+    for b in F.code_bodies():
+        if "src/cln_plugin/" not in b.span.get("f", ""):
+            continue
+        for bi in sorted(b.reachable):
+            for s in b.blocks[bi]["s"]:
+                if not (s["k"] == "assign" and s["rv"]["k"] == "agg" and canon(s["rv"].get("adt") or "") == "cln_plugin::options::Value" and s["rv"].get("variant") in ("Boolean", "String") and s["rv"]["ops"]):
+                    continue
+                var = s["rv"]["variant"]
+                e = strip(X.operand(b, s["rv"]["ops"][0]))
+                jv = "Bool" if var == "Boolean" else "String"
+                src = [y for y in walk(e) if y[0] == "field" and "serde_json" in str(y[2]) and y[3] == jv]
+                if not src:
+                    continue                # a literal default / a test value
+                nb += 1
+                if var == "Boolean":
+                    ok = all(a[0] == "field" and "serde_json" in str(a[2]) and a[3] == "Bool" for a in alts(e))
+                else:
+                    def peel(a):
+                        for _ in range(6):
+                            if a[0] == "call" and a[2] and a[1].split("::")[-1] in ("to_string", "clone", "to_owned", "from", "into", "as_str", "deref", "borrow", "as_ref"):
+                                a = strip(a[2][0])
+                            else:
+                                break
+                        return a
+                    ok = all((lambda a: a[0] == "field" and "serde_json" in str(a[2]) and a[3] == "String")(peel(a)) for a in alts(e))
+                rep.ob(rid, ok, F.root_of(b), "%s option value is the JSON value's payload" % var.lower(), where=loc(s["sp"]), how=show(e)[:80],
+                       detail="" if ok else "a %s option is stored as %s, not as the value lightningd sent" % (var.lower(), show(e)[:100]))
+    rep.anchor(rid, "conversion of the init message's booleans/strings into option values", nb, 2)
     # an option's default is taken only where lightningd sent no value for it
     nd = 0
     for b in F.code_bodies():
